@@ -50,7 +50,21 @@ ASSUMPTIONS = [
     'per-slot alignment of non-expanded inventory columns (slot_alignment, computed in the harness from the emitted text) applies to '
     'columns with at most 5 (commodity, lot) slots; with more the renderer documents a plain joined list, which is only read back',
     'Decimals are finite (NaN/Infinity raise TypeError in DecimalRenderer.update; not generated)',
+    'translator tie (C16_source_*): coq/Gen/SrcRender.v is regenerated from the source of ColumnRenderer.prepare and of '
+    'update/format of ObjectRenderer (inherited unchanged by StringRenderer / IntRenderer / DictRenderer: checked), BoolRenderer, '
+    'DateRenderer, DecimalRenderer, and DecimalRenderer.prepare without its last statement `return super().prepare()` '
+    '(harness/vf/src_render.py; f-strings with {x:<{n}} / {x:>{n}} parts become primitives); trusted there: the PyMini semantics '
+    '(Model/PyMini.v), the encoding of values and what Model/PrimsRender.v says str, max, rjust, ljust, strftime, as_tuple and '
+    'the alignment format specs do (built from Render.v\'s own string functions); self.format(value) inside '
+    'ObjectRenderer.update is an opaque callable returning a str',
 ]
+
+
+def generate():
+    """translator tie: regenerate coq/Gen/SrcRender.v from the source of the imported column renderers (py2mini +
+    src_render); raises py2mini.Untranslatable when a tied method left the fragment (reported as translator-failed)"""
+    from . import gen_src
+    return gen_src.generate('render')
 
 # ------------------------------------------------------------------ cases (JSON-able)
 # cell encodings: None | ['e',member name] | ['b',bool] | ['i',int] | ['d',str] | ['s',str] | ['D',y,m,d] | ['S',[str]] | ['o',dict]
